@@ -1,11 +1,12 @@
 (** The single entry point extracted to OCaml: property number -> case -> code. *)
 From Perf Require Import Base.Bytes Base.Sx.
-From Perf Require Corr.RunC05 Corr.RunC14.
+From Perf Require Corr.RunC05 Corr.RunC14 Corr.RunC15.
 
 Definition run (prop : N) (s : sx) : N :=
   match prop with
   | 5%N => RunC05.run_case s
   | 14%N => RunC14.run_case s
+  | 15%N => RunC15.run_case s
   | _ => code_undecodable
   end.
 
